@@ -102,7 +102,8 @@ impl<Tag: Default> oxidd_dump::ParseTagged<Tag> for F64 {
             | "+infinity" | "+Inf" | "+Infinity" | "+INF" | "+INFINITY" | "PlusInf" => {
                 Self(f64::INFINITY)
             }
-            _ => Self(f64::from_str(s).ok()?),
+            // `From<f64>` normalizes NaNs and the sign of zero (e.g., "-0")
+            _ => Self::from(f64::from_str(s).ok()?),
         };
         Some((val, Tag::default()))
     }
